@@ -676,7 +676,7 @@ func writeEvidence(o CheckOpts, reports []*FnReport, all []Result, nObl, nDis in
 	for k, v := range bySolver {
 		bs[k] = map[string]any{"count": int(v[0]), "seconds": round2(v[1])}
 	}
-	var as []string
+	as := []string{}
 	for k := range assume {
 		as = append(as, k)
 	}
